@@ -24,13 +24,13 @@
       clause: S sscanf = strtod; V strtod returns well-formed doubles; N2 "%d" reads back as
       (double) int; N3 17 digits read back exactly; N4 15 digits survive double -> text ->
       double -> text; N4z no underflow to zero; N5a "%1.15g" of an int-valued double is the
-      "%d" text; N5b integers below 10^15 read back exactly from "%1.15g").  Clauses S and N2
-      are proved for the executable reference implementations; all clauses are evaluated on a
+      "%d" text; N5b integers below 10^15 read back exactly from "%1.15g").  Clauses S, V and
+      N2 are proved for the executable reference implementations; all clauses are evaluated on a
       table of boundary doubles in RoundTripEvidence.v (tests); all clauses together are proved
       for an artificial library in RoundTripModel.v (joint satisfiability). *)
 From CJ Require Import Base Dbl Tree LibcNum LibcPrint Grammar ParseDefs ParseSpec ParseComplete
   ParseListStrtod PrintDefs PrintStrict RoundTripNum RoundTripInt RoundTrip RoundTripPrint RoundTripRef
-  RoundTripModel RoundTripEvidence.
+  RoundTripRefValid RoundTripModel RoundTripEvidence.
 Local Open Scope Z_scope.
 
 (** * One number through print_number and parse_number *)
@@ -231,6 +231,14 @@ Theorem C04_ref_d : forall z, int_range z = true ->
   strtod_ref (fmt_d z) = Some (dbl_of_int z, length (fmt_d z)).
 Proof. exact ref_d. Qed.
 Print Assumptions C04_ref_d.
+
+(** clause V holds for the reference strtod: whatever it returns is a well-formed double.
+    (Proved with Flocq 4.1's theorems about SpecFloat's rounding and division, which rest on
+    Coq's real numbers: this is the only theorem of the file that is not closed under the global
+    context — Print Assumptions lists the standard axioms of the Reals library.) *)
+Theorem C04_ref_valid : forall t d k, strtod_ref t = Some (d, k) -> dbl_ok d.
+Proof. exact ref_valid. Qed.
+Print Assumptions C04_ref_valid.
 
 (** TEST (vm_compute, not a proof of the clauses): the whole cycle of [C04_number] evaluated
     with the reference implementations on the table of boundary doubles of RoundTripEvidence.v
